@@ -14,6 +14,6 @@ CHECK = {
 META = {
     "text": "Generated search over scheduler histories (rapid, model-based, harness-owned clock and schedule); explores thousands of distinct non-trivial histories per run, shrinks failures to a minimal script; no proof of absence. " + 'Every Execute is attributed to the task it attached to; cacheable duplicates must attach to the live task, do_not_cache / post-completion requests must get a fresh task; never two live cacheable tasks per digest.',
     "design_ref": "6/C03",
-    "note": "Interleavings only at lock-release granularity; Send/authorizer never block in this harness; liveness only as 'returned by quiescence in simulated time'. Trusts the verif snapshot hook paired with public-API observations.",
+    "note": "Interleavings are explored at the points the harness owns: between steps (one call per step, quiescence after each), while the scheduler holds its lock (UUID generator and learner call-backs deliver timer ticks and cancellations), right after it released the lock before a worker waits (Done() hook), between a wake-up and the re-acquisition of the lock (clock gate), during the action fetch, and with Send/authorizer calls parked; interleavings inside one lock section of the scheduler are not. Liveness only as 'returned by quiescence in simulated time'. Trusts the verif snapshot hook paired with public-API observations; drains, terminating workers, queue set and learner outcomes are model-owned.",
     "technique": "stateful model-based property testing (rapid) of the real scheduler under a simulated clock inside testing/synctest, history oracle + structural invariant walk",
 }
